@@ -562,6 +562,11 @@ Proof.
   intros Hw Hs Hp. unfold chk_C01. rewrite (chk_C01_gate_model cfg ep h Hw), (chk_C06_on_model cfg Hs Hp ep h), (chk_C07_on_model cfg Hp Hs ep h). reflexivity.
 Qed.
 
+Theorem chk_C08_full_model cfg ep h : cfg_seconds cfg -> cfg_positive cfg -> chk_C08 (model_case cfg ep h) = true.
+Proof.
+  intros Hs Hp. unfold chk_C08. rewrite (chk_C08_bij_model cfg ep h), (chk_C07_on_model cfg Hp Hs ep h). reflexivity.
+Qed.
+
 Theorem chk_C02_full_model cfg ep h : cfg_seconds cfg -> cfg_positive cfg -> chk_C02 (model_case cfg ep h) = true.
 Proof.
   intros Hs Hp. unfold chk_C02. rewrite (chk_C02_gate_model cfg ep h), (chk_C06_on_model cfg Hs Hp ep h), (chk_C07_on_model cfg Hp Hs ep h). reflexivity.
